@@ -19,13 +19,13 @@ def run(prog, chk):
     chk.rule("C13.recycle", "recycled request handles / transfer objects are re-initialised field by field before they are handed out", floor=25)
     recycle.check(prog, chk, "C13.recycle", ["KSI_AbstractAsyncHandle_new", "CurlAsyncRequest_new"])
     from .c13_slot import cache_growth_table, config_table, endpoint_tables, response_context_rule, send_timeout_table, slot_table
-    slot_table(prog, chk)
-    config_table(prog, chk)
-    send_timeout_table(prog, chk)
-    cache_growth_table(prog, chk)
-    endpoint_tables(prog, chk)
-    response_context_rule(prog, chk)
-    _run(prog, chk)
+    chk.defer(slot_table, prog, chk)
+    chk.defer(config_table, prog, chk)
+    chk.defer(send_timeout_table, prog, chk)
+    chk.defer(cache_growth_table, prog, chk)
+    chk.defer(endpoint_tables, prog, chk)
+    chk.defer(response_context_rule, prog, chk)
+    chk.defer(_run, prog, chk)
 
 
 def _run(prog, chk):
